@@ -57,6 +57,7 @@ var (
 	ErrDNSQueryConcurrencyLimitExceeded = errors.New("dns query concurrency limit exceeded")
 	ErrDNSUDPConnPoolExhausted          = errors.New("dns udp conn pool exhausted")
 	ErrDNSTruncated                     = errors.New("dns response truncated")
+	ErrDNSResponseQuestionMismatch      = errors.New("dns response does not answer the question asked")
 )
 
 var (
@@ -2079,6 +2080,20 @@ func (c *DnsController) getOrCreateDnsForwarder(upstream *dns.Upstream, dialArg 
 	return created, nil
 }
 
+// dnsResponseAnswersQuery reports whether resp echoes the question of the packed
+// query. A response without a question section is left to the caller.
+func dnsResponseAnswersQuery(query []byte, resp *dnsmessage.Msg) bool {
+	if resp == nil || len(resp.Question) == 0 {
+		return true
+	}
+	var req dnsmessage.Msg
+	if err := req.Unpack(query); err != nil || len(req.Question) == 0 {
+		return true
+	}
+	q, r := req.Question[0], resp.Question[0]
+	return q.Qtype == r.Qtype && q.Qclass == r.Qclass && strings.EqualFold(q.Name, r.Name)
+}
+
 func (c *DnsController) forwardWithDialArg(ctx context.Context, upstream *dns.Upstream, dialArg *dialArgument, data []byte) (*dnsmessage.Msg, error) {
 	c.requireStore()
 	key := newDnsForwarderKey(upstream, dialArg)
@@ -2093,6 +2108,12 @@ func (c *DnsController) forwardWithDialArg(ctx context.Context, upstream *dns.Up
 
 		respMsg, err := entry.forwarder.ForwardDNS(ctx, data)
 		entry.endUse()
+		if err == nil && !dnsResponseAnswersQuery(data, respMsg) {
+			// Transports match answers to queries by transaction ID only. A late,
+			// duplicated or bogus answer carrying a reused ID must not be relayed
+			// (and cached) as the answer to this query.
+			respMsg, err = nil, ErrDNSResponseQuestionMismatch
+		}
 		if err != nil {
 			// ErrDNSTruncated is a valid DNS protocol signal (response too
 			// large for UDP), not a transport failure.  Propagate the error
